@@ -377,6 +377,15 @@ def ok_exprs():
     E["empty_object"] = (lambda: A.obj(), "C12 C13 C10")
     E["empty_string"] = (lambda: S_(""), "C15 C11")
     E["print_call"] = (lambda: A.call("print", V("n")), "C19 C14 C17")
+    E["negative_difference"] = (lambda: A.Bin("-", I(0), I(1)), "C06 C11 C16")
+    E["difference_of_variables"] = (lambda: A.Bin("-", V("n"), A.Bin("+", V("n"), I(2))), "C06 C11")
+    E["literal_left_greater"] = (lambda: A.Bin(">", I(10), V("n")), "C06 C16 C07")           # true
+    E["literal_left_less"] = (lambda: A.Bin("<", I(10), V("n")), "C06 C16 C07")              # false
+    E["literal_left_less_equal"] = (lambda: A.Bin("<=", I(7), V("n")), "C06 C16 C07")        # true
+    E["literal_left_greater_equal"] = (lambda: A.Bin(">=", I(6), V("n")), "C06 C16 C07")     # false
+    E["literal_left_equal"] = (lambda: A.Bin("==", I(7), V("n")), "C10 C16 C07")
+    E["zero_index_sum"] = (lambda: A.Bin("+", I(0), I(0)), "C06 C11")
+    E["last_index"] = (lambda: A.Bin("-", A.Index(V("xs"), I(2)), I(1)), "C06 C11")            # 2
     return E
 
 
